@@ -1253,3 +1253,102 @@ func (p *relProver) proveSlice(in ssa.Instruction, x, lo, hi ssa.Value) (string,
 	}
 	return "", false
 }
+
+// ---------------------------------------------------------------------------
+// D11 — regexp submatch contract: for m := re.FindStringSubmatch(s) with len(m) != 0 (or m != nil),
+// len(m) == re.NumSubexp()+1 == len(re.SubexpNames()). An index i < len(re.SubexpNames()) of the same re is
+// therefore in range for m. m and re may reach the indexing function as parameters of an unexported function
+// whose every in-package call site passes such a pair.
+
+func isRegexpCall(v ssa.Value, names ...string) (*ssa.Call, ssa.Value) {
+	cl, ok := stripSliceConv(v).(*ssa.Call)
+	if !ok || cl.Call.StaticCallee() == nil {
+		return nil, nil
+	}
+	fk := funcKey(cl.Call.StaticCallee())
+	for _, n := range names {
+		if fk == "(*regexp.Regexp)."+n && len(cl.Call.Args) > 0 {
+			return cl, cl.Call.Args[0]
+		}
+	}
+	return nil, nil
+}
+
+func (p *relProver) nonEmptyAt(x ssa.Value, facts []cmpFact) bool {
+	isNil := func(v ssa.Value) bool { k, ok := v.(*ssa.Const); return ok && k.Value == nil }
+	for _, f := range facts {
+		if f.op == token.NEQ && ((p.sameSlice(f.l, x) && isNil(f.r)) || (p.sameSlice(f.r, x) && isNil(f.l))) {
+			return true
+		}
+	}
+	return p.minLen(x, facts) >= 1
+}
+
+// submatchOf: x is a non-empty submatch slice of regexp value re at this point
+func (p *relProver) submatchOf(x, re ssa.Value, facts []cmpFact, depth int) bool {
+	if cl, r := isRegexpCall(x, "FindStringSubmatch", "FindSubmatch"); cl != nil {
+		return p.same(r, re) && p.nonEmptyAt(x, facts)
+	}
+	xp, ok1 := stripSliceConv(x).(*ssa.Parameter)
+	rp, ok2 := re.(*ssa.Parameter)
+	if !ok1 || !ok2 || xp.Parent() != rp.Parent() || depth > 1 {
+		return false
+	}
+	f := xp.Parent()
+	if token.IsExported(f.Name()) || f.Parent() != nil || hasNonCallRef(f) {
+		return false
+	}
+	xi, ri := -1, -1
+	for i, q := range f.Params {
+		if q == xp {
+			xi = i
+		}
+		if q == rp {
+			ri = i
+		}
+	}
+	if xi < 0 || ri < 0 {
+		return false
+	}
+	n, okAll := 0, true
+	for _, g := range p.e.c.P.ModuleFuncs() {
+		if g.Pkg != f.Pkg {
+			continue
+		}
+		allInstrs(g, func(in ssa.Instruction) {
+			ci, ok := in.(ssa.CallInstruction)
+			if !ok || ci.Common().StaticCallee() != f || xi >= len(ci.Common().Args) || ri >= len(ci.Common().Args) {
+				return
+			}
+			n++
+			if !p.submatchOf(ci.Common().Args[xi], ci.Common().Args[ri], p.factsAt(in.Block()), depth+1) {
+				okAll = false
+			}
+		})
+	}
+	return n > 0 && okAll
+}
+
+func (p *relProver) proveRegexpSubmatch(in ssa.Instruction, x, idx ssa.Value) (string, bool) {
+	facts := p.factsAt(in.Block())
+	if p.lower(idx, facts, 0) < 0 {
+		return "", false
+	}
+	// find a names slice S = re.SubexpNames() with idx < len(S)
+	var found bool
+	allInstrs(in.Parent(), func(i2 ssa.Instruction) {
+		cl, ok := i2.(*ssa.Call)
+		if !ok || found {
+			return
+		}
+		if c2, re := isRegexpCall(cl, "SubexpNames"); c2 != nil {
+			if p.leqLen(idx, cl, -1, facts, 0) && p.submatchOf(x, re, facts, 0) {
+				found = true
+			}
+		}
+	})
+	if found {
+		return "D11 regexp contract: index < len(re.SubexpNames()) = len(non-empty re.FindStringSubmatch(…))", true
+	}
+	return "", false
+}
